@@ -328,6 +328,47 @@ pub fn handle(op: &str, a: &[&str]) -> Option<Resp> {
             };
             Some(Resp::with(format!("{} {} {}", sh(&px), sh(&py), c), fail))
         }
+        // lossless evaluators on a field read with substitution variables allowed: a substitution
+        // variable is not an entry, the answer is that of the entries (lossy reader: no substvars)
+        ("rel.satsv", [t, asg]) => {
+            let text = ds(t)?;
+            let assign_txt = dec_assign(asg)?;
+            let mut assign: Vec<(String, Version)> = vec![];
+            for (p, v) in &assign_txt {
+                assign.push((p.clone(), Version::from_str(v).ok()?));
+            }
+            let (tree, errs) = LRelations::parse_relaxed(&text, true);
+            let map: HashMap<String, Version> = assign.iter().cloned().collect();
+            let closure = |n: &str| -> Option<Version> { assign.iter().find(|(p, _)| p == n).map(|(_, v)| v.clone()) };
+            let via_map = |n: &str| -> Option<Version> { map.lookup_version(n).map(|c| c.into_owned()) };
+            let pair: Option<(String, Version)> = if assign.len() == 1 { Some(assign[0].clone()) } else { None };
+            let lm = guard(|| tree.satisfied_by(via_map));
+            let lc = guard(|| tree.satisfied_by(closure));
+            let lp = pair.as_ref().map(|p| guard(|| tree.satisfied_by(|n: &str| p.lookup_version(n).map(|c| c.into_owned()))));
+            // the per-entry conjunction over the public iterator: another reading of the same tree
+            let le = guard(|| tree.entries().all(|e| e.satisfied_by(closure)));
+            let l = format!("{}{}{}{}", show(lm), show(lc), lp.map(show).unwrap_or('-'), show(le));
+            let nsv = guard(|| tree.substvars().count());
+            let obs = format!("errs={} L:{} nsv={}", ebool(errs.is_empty()), l, nsv.map(|n| n.to_string()).unwrap_or_else(|| "P".into()));
+            // oracle: drop the items that are substitution variables, evaluate the rest
+            let mut fail = None;
+            let items: Vec<&str> = text.split(',').map(|i| i.trim_matches(|c| c == ' ' || c == '\t' || c == '\n')).collect();
+            let is_sv = |i: &str| i.starts_with("${") && i.ends_with('}') && !i[2..i.len() - 1].contains(['$', '{', '}', ' ']);
+            let rest: Vec<&str> = items.iter().cloned().filter(|i| !is_sv(i)).collect();
+            if let Some(field) = ref_parse(&rest.join(", ")) {
+                if let Some(want) = ref_sat(&field, &assign_txt) {
+                    let w = if want { '1' } else { '0' };
+                    if !errs.is_empty() {
+                        fail = Some("a well-formed field with substitution variables is reported with errors".to_string());
+                    } else if l.chars().any(|c| c != '-' && c != w) {
+                        fail = Some(format!("expected {} (the entries without the substitution variables), got L:{}", w, l));
+                    } else if nsv != Some(items.len() - rest.len()) {
+                        fail = Some(format!("{} substitution variables written, {:?} reported", items.len() - rest.len(), nsv));
+                    }
+                }
+            }
+            Some(Resp::with(obs, fail))
+        }
         ("rel.sat", [t, y, asg]) => {
             let text = ds(t)?;
             let assign_txt = dec_assign(asg)?;
@@ -562,6 +603,33 @@ pub fn generate_c12(tier: &str, seed: u64, out: &mut Out) {
         for a in [vec![], vec![("a", "2")], vec![("a", "1"), ("b", "2")], vec![("a", "2147483648")], vec![("b", "3")]] {
             sat_req(out, f, &enc_assign(&a));
         }
+    }
+    // ---- 4b. substitution variables among the entries (lossless reader with substvars allowed):
+    //      they are not entries and never decide the answer (after seeded change C12-r5m1)
+    let svs = ["${misc:Depends}", "${shlibs:Depends}", "${a}"];
+    let ents = ["a", "a (>= 2)", "a (<< 2) | b", "b (= 2)"];
+    let mut svfields: Vec<String> = vec![];
+    for sv in svs {
+        svfields.push(sv.to_string());
+        svfields.push(format!("{}, {}", sv, svs[0]));
+        for e in ents {
+            svfields.push(format!("{}, {}", sv, e));
+            svfields.push(format!("{}, {}", e, sv));
+            svfields.push(format!("{},{},\n {}", e, sv, ents[1]));
+            for e2 in ents {
+                svfields.push(format!("{}, {}, {}", e, sv, e2));
+                svfields.push(format!("{}, {}, {}, {}", sv, e, e2, svs[1]));
+            }
+        }
+    }
+    for f in &svfields {
+        for a in [vec![], vec![("a", "2")], vec![("a", "1")], vec![("a", "3"), ("b", "2")], vec![("b", "2")], vec![("a", "1"), ("b", "2")]] {
+            out.req("rel.satsv", &[es(f), enc_assign(&a)]);
+        }
+    }
+    // the fields of part 4 as well (errors, odd layouts: model = code, no oracle)
+    for f in odd {
+        out.req("rel.satsv", &[es(f), enc_assign(&[("a", "2")])]);
     }
     // ---- 5. seeded random fields over the version pool
     let names = ["a", "b", "libfoo-dev", "c++", "x.y"];
